@@ -26,8 +26,11 @@ def _load():
     import chython.files.daylight.tokenize as tk
     src = env.read(FILE)
     tree = ast.parse(src)
-    fn = next(n for n in tree.body if isinstance(n, ast.FunctionDef) and n.name == '_tokenize')
-    loop = next(s for s in fn.body if isinstance(s, ast.For))
+    from vlib.env import Unanchored
+    fn = next((n for n in tree.body if isinstance(n, ast.FunctionDef) and n.name == '_tokenize'), None)
+    loop = fn and next((s for s in fn.body if isinstance(s, ast.For)), None)
+    if loop is None:
+        raise Unanchored(f'{FILE}: function _tokenize with a top-level for loop over the characters not found')
     after = fn.body[fn.body.index(loop) + 1:]
 
     def mk(stmts, name, ret=True):
